@@ -18,6 +18,11 @@ Late family: the population is created BEFORE its associations are defined and
 formalized (raw values in the later referential attributes), connected by those
 values (batch_relate / the loader's populate_connections / not at all) and the
 links then edited with relate / unrelate; the round-trip oracle follows.
+
+Phrases: the link family carries schemas whose association phrases are full of
+characters that mean something to the text format or to string formatting
+(PHRASES); the phrases family enumerates every phrase over PHRASE_ALPHABET up to
+a length on one linked population.
 '''
 import itertools
 import os
@@ -30,7 +35,9 @@ BUDGET_S = {'quick': 3600, 'thorough': 14400}
 ASSUMPTIONS = [
     'persistable domain: referential values resolve or are null; identifying values of non-nullable types (integer, real, '
     'boolean) avoid the serialised null when an unlinked referring instance exists; no inf/nan; names do not lex as '
-    'relationship numbers (R<n>) ; phrases contain no quote',
+    'relationship numbers (R<n>) ; phrases contain no lone quote: serialize_association writes a phrase verbatim between quotes and the '
+    'loader takes it verbatim (no escaping in either direction), so a doubled quote inside a phrase is in the domain and stays '
+    'doubled, a single one (PHRASE_EXCLUDED) cannot be written',
     'carriage returns inside strings are compared on the string routes only (text-mode file reading normalises them)',
     'ids are below 2^128',
     'link family: besides the shared association shapes, key types, composite keys and all cardinalities: four schemas in which '
@@ -38,6 +45,12 @@ ASSUMPTIONS = [
     'the referring classes, keys of different types or of one type with values crossed over the instances, one referring '
     'class with two referentials, overlapping composite / single identifiers), 1-2 instances per class, every resolving '
     'population',
+    'phrases: the schemas phrase_<i> / phrase_refl_<i> / phrase_one_end_<i> of the link family carry the phrases of PHRASES '
+    '(percent signs alone, doubled, as conversion look-alikes %s %d %(k)s, doubled quotes, statement punctuation, comment marker, '
+    'newline, tab, NUL, backslash, double quotes, non-ASCII, words of the format) on both ends / on one end, 1-2 instances per '
+    'class and at most 3 in all (thorough: 0-2 per class), every resolving population, every route; the phrases family enumerates every non-empty phrase over '
+    'PHRASE_ALPHABET up to length 2 (thorough: 3) on one linked population (phrase on the referring end / the referred end / '
+    'both, by position), one route per serialisation function',
     'late family: the population is created first, with raw values (omitted = the default of the type stays behind, or the key of '
     'an existing instance) in the attributes that become referential, THEN the associations are defined and formalized; the '
     'instances are connected by those raw values through Association.batch_relate (before formalize), through the loader\'s '
@@ -57,6 +70,11 @@ INTS = [0, 1, -1, 2 ** 31, -2 ** 31, 2 ** 63, -2 ** 63, 2 ** 64 + 1, -(2 ** 64 +
 REALS = [0.0, -0.0, 0.5, -1.5, 1e-7, 123456.1234565, 1e15 + 0.5, 1e22, -1e300]
 IDS = [0, 1, 2 ** 64, 2 ** 128 - 1]
 BOOLS = [False, True]
+# association phrases (both navigation directions); the format has no escape for a phrase, so a lone quote is not persistable
+PHRASES = ['%', '%%', '%s', 'owns 100% of', 'taxes (%d, %(k)s)', "it''s", "''", 'a; b', '-- c', 'x\ny', '\t\\', 'x\x00"q"', '\xe9 \u20ac', "'' TO 1 A (Id)",
+           ' PHRASE ']
+PHRASE_ALPHABET = ['%', 's', "''", ' ', '(', ';', '-', '\n', '"', '\xe9', ',', 'd']
+PHRASE_EXCLUDED = ["'"]        # serialize_association does not double it, the loader would not undouble it: outside the domain
 RESERVED = ['CREATE', 'FALSE', 'FROM', 'INDEX', 'INSERT', 'INTO', 'ON', 'PHRASE', 'REF_ID', 'ROP', 'TABLE', 'TO', 'TRUE',
             'UNIQUE', 'VALUES', 'M', 'MC', 'create', 'Values', 'Rop']
 
@@ -294,7 +312,7 @@ def _check_case(ctx, xtuml, case, family):
 
 
 def _safe_routes(ctx, xtuml, m0, case, vcase, family):
-    gen = routes(xtuml, m0, with_files=not has_cr(case), tag=str(ctx.n('cases')), full=not (case.get('history') or case.get('late')))
+    gen = routes(xtuml, m0, with_files=not has_cr(case), tag=str(ctx.n('cases')), full=not (case.get('history') or case.get('late') or case.get('brief')))
     while True:
         try:
             item = next(gen)
@@ -391,6 +409,20 @@ KEY_VALUES = {'unique_id': [11, 12], 'integer': [5, 7], 'string': ['k', "m'"], '
 def key_schemas():
     out = list(schemas.shapes())
     A = relmodel.Assoc
+    # phrases full of characters that mean something to the text format or to string formatting; on both ends of a
+    # non-reflexive / reflexive association, and on one end only (either one)
+    n = len(PHRASES)
+    for i, ph in enumerate(PHRASES):
+        other = PHRASES[(i + 1) % n]
+        out.append(relmodel.Schema('phrase_%d' % i, [('A', [('Id', 'unique_id')]), ('B', [('Id', 'unique_id'), ('A_Id', 'unique_id')])],
+                                   [A(7, 'B', ['A_Id'], True, True, ph, 'A', ['Id'], False, False, other)], [('A', 'I1', ['Id'])]))
+        if i % 2 == 0:
+            out.append(relmodel.Schema('phrase_refl_%d' % i, [('A', [('Id', 'unique_id'), ('Next_Id', 'unique_id')])],
+                                       [A(3, 'A', ['Next_Id'], False, True, ph, 'A', ['Id'], False, True, other)], [('A', 'I1', ['Id'])]))
+        else:
+            ends = (ph, '') if i % 4 == 1 else ('', ph)
+            out.append(relmodel.Schema('phrase_one_end_%d' % i, [('A', [('Id', 'unique_id')]), ('B', [('Id', 'unique_id'), ('A_Id', 'unique_id')])],
+                                       [A(2, 'B', ['A_Id'], True, True, ends[0], 'A', ['Id'], False, True, ends[1])], []))
     for ty in ('integer', 'string', 'real', 'boolean'):
         out.append(relmodel.Schema('key_%s' % ty, [('A', [('Id', ty), ('N', 'integer')]), ('B', [('Id', 'unique_id'), ('A_Id', ty)])],
                                    [A(1, 'B', ['A_Id'], True, True, '', 'A', ['Id'], False, True, '')], [('A', 'I1', ['Id'])]))
@@ -450,8 +482,12 @@ def links_family(tier):
         kinds = schema.kinds()
         sizes = [range(0, cap + 1) if schema.name.startswith(('a_', 'b_', 'e_', 'g_', 'key_')) or tier == 'thorough' else (1, 2)
                  for _ in kinds]
+        if schema.name.startswith('phrase_'):
+            sizes = [(1, 2) if tier == 'quick' else range(0, 3) for _ in kinds]
         for counts in itertools.product(*sizes):
             if sum(counts) == 0 or sum(counts) > (4 if tier == 'quick' else 6):
+                continue
+            if tier == 'quick' and schema.name.startswith('phrase_') and sum(counts) > 3:
                 continue
             rows = []
             per_kind = {}
@@ -527,6 +563,17 @@ def keyword_family():
     rows = [(w, {'Id': 50 + i, ws[(i + 2) % len(ws)]: w.lower()}) for i, w in enumerate(ws)]
     links = [(i, (i + 1) % len(ws), 10 + i, '') for i in range(len(ws))]
     yield dict(classes=classes, uniques=[(w, 'I1', ['Id']) for w in ws], assocs=assocs, rows=rows, links=links, word='all')
+
+
+def phrases_family(tier):
+    '''Every non-empty phrase over PHRASE_ALPHABET up to a length, on one linked population.'''
+    classes = [('A', [('Id', 'UNIQUE_ID')]), ('B', [('Id', 'UNIQUE_ID'), ('A_Id', 'UNIQUE_ID')])]
+    rows = [('A', {'Id': 11}), ('B', {'Id': 21}), ('B', {'Id': 22})]
+    for i, ph in enumerate(sqlmodel.strings(PHRASE_ALPHABET, 2 if tier == 'quick' else 3)[1:]):
+        sphrase, tphrase = [(ph, 'r' + ph), (ph, ''), ('', ph)][i % 3]
+        yield dict(classes=classes, uniques=[('A', 'I1', ['Id'])],
+                   assocs=[[4, 'B', ['A_Id'], True, True, sphrase, 'A', ['Id'], False, True, tphrase]],
+                   rows=rows, links=[(1, 0, 4, sphrase)], brief=True)
 
 
 def order_family():
@@ -685,7 +732,7 @@ def jsonable(case):
 def run(ctx):
     fams = [('values', list(values_family(ctx.tier))), ('links', list(links_family(ctx.tier))),
             ('keywords', list(keyword_family())), ('order', list(order_family())), ('history', list(history_family(ctx.tier))),
-            ('late', list(late_family(ctx.tier)))]
+            ('late', list(late_family(ctx.tier))), ('phrases', list(phrases_family(ctx.tier)))]
     tasks = []
     for name, cases in fams:
         cases = [jsonable(c) for c in cases]
@@ -701,6 +748,8 @@ def run(ctx):
     ctx.require(ctx.n('family_links') >= 300, 'too few link populations (%d)' % ctx.n('family_links'))
     ctx.require(ctx.n('loads') >= 10 * ctx.n('cases'), 'too few loads per case')
     ctx.require(ctx.n('family_late') >= 1000, 'too few populations created before their associations (%d)' % ctx.n('family_late'))
+    ctx.require(ctx.n('family_phrases') >= 150, 'too few enumerated phrases (%d)' % ctx.n('family_phrases'))
+    ctx.require(sum(1 for c in fams[1][1] if c['schema'].startswith('phrase_')) >= 200, 'too few populations under phrased associations')
     ctx.require(ctx.n('family_history') >= 300, 'too few histories (%d)' % ctx.n('family_history'))
 
 
@@ -715,7 +764,7 @@ def coverage(ctx):
         evaluations=ctx.n('loads'), cases=ctx.n('cases'), not_constructible=ctx.n('not_constructible'),
         families=dict((k[7:], v) for k, v in ctx.counts.items() if k.startswith('family_')),
         distinct_nontrivial=ctx.nd('nontrivial'),
-        rule='states = distinct metamodels of the six families; each goes through 12 string routes, up to 4 file routes, the '
+        rule='states = distinct metamodels of the seven families; each goes through 12 string routes, up to 4 file routes, the '
              'fixed-point round, serialize() dispatch and (without associations) the instances-only route; non-trivial = distinct '
              'metamodels for which every route reproduced the snapshot. History family: metamodels reached by save / live schema '
              'edit / save / edit sequences (every save route before every edit of the alphabet; pairs of edits with a save '
@@ -723,6 +772,9 @@ def coverage(ctx):
         bounds=dict(string_length=2 if ctx.quick else 3, string_alphabet=STR_ALPHABET, specials=len(STR_SPECIALS), ints=len(INTS),
                     reals=len(REALS), ids=len(IDS), schemas=len(key_schemas()), instances_per_class=2 if ctx.quick else 3,
                     reserved_words=len(RESERVED),
+                    phrases=dict(in_link_schemas=PHRASES, alphabet=PHRASE_ALPHABET, enumerated_up_to_length=2 if ctx.quick else 3,
+                                 enumerated=ctx.n('family_phrases'), excluded=PHRASE_EXCLUDED,
+                                 instances_per_class='1-2, at most 3 in all' if ctx.quick else '0-2'),
                     schemas_with_several_identifiers_of_one_class=[s.name for s in key_schemas() if s.name.startswith('two_ids_')],
                     late=dict(connect=LATE_CONNECT, max_edits=LATE_MAX_EDITS[ctx.tier], cases=ctx.n('family_late'),
                               schemas=[b[0].name for b in late_bases()]),
